@@ -88,14 +88,12 @@ def run(tier="quick", seed=0):
                         viol.append({"id": "npb_%d" % ev, "clause": "numpy_fix_to_float", "why": "array and scalar fix->float differ",
                                      "inputs": {"signed": signed, "n_bits": n_bits, "n_frac": n_frac}})
                 # deprecated variants agree modulo two's complement
-                if n_bits <= 32 and 0 <= n_frac <= n_bits - (1 if signed else 0):
+                if 0 <= n_frac <= n_bits - (1 if signed else 0):
                     with warnings.catch_warnings():
                         warnings.simplefilter("ignore")
                         old = tc.float_to_fix(signed, n_bits, n_frac)
                         oldb = tc.fix_to_float(signed, n_bits, n_frac)
                         for v in vs:
-                            if abs(v) > 1e20:
-                                continue
                             ev += 1
                             try:
                                 g = old(v)
@@ -110,6 +108,6 @@ def run(tier="quick", seed=0):
                                              "inputs": {"signed": signed, "n_bits": n_bits, "n_frac": n_frac, "value": repr(v)}})
     samples.append({"float_to_fp(True, 8, 4)": [[v, tc.float_to_fp(True, 8, 4)(v)] for v in (-8.0, -0.26, 7.95, 100.0)]})
     return {"name": "c16_typecasts", "evaluations": ev, "distinct_nontrivial": len(distinct),
-            "rule": "formats signed/unsigned x n_bits 8,9,16,17,32,33,64,13 x n_frac {0,1,4,n/2,n-1,n,-2}, each format built twice in one process (the list forwards, then backwards); inputs: both ends of the range, +-1 step, +-1 ulp, quarter steps, 0, +-0.5, +-1e30, subnormals, 2**63, 2**64; scalar result against exact rational scale/truncate/saturate, monotone over the sorted inputs, round trip of representable values, numpy converters element-wise against the scalar (shapes (), (n,), (1,n)), deprecated variants modulo 2**n",
+            "rule": "formats signed/unsigned x n_bits 8,9,16,17,32,33,64,13 x n_frac {0,1,4,n/2,n-1,n,-2}, each format built twice in one process (the list forwards, then backwards); inputs: both ends of the range, +-1 step, +-1 ulp, quarter steps, 0, +-0.5, +-1e30, subnormals, 2**63, 2**64; scalar result against exact rational scale/truncate/saturate, monotone over the sorted inputs, round trip of representable values, numpy converters element-wise against the scalar (shapes (), (n,), (1,n)), deprecated variants modulo 2**n (every format whose parameters they accept, every input)",
             "bound": "the listed formats and inputs", "exhaustive": False, "label": "bounded", "samples": samples,
             "violations": viol, "seconds": round(time.time() - t0, 2)}
